@@ -509,8 +509,8 @@ def run(ctx):
         recs = []
         for j in range(nfeat):
             v = r.choice(vals)
-            w = r.randrange(0, 6)
-            keys = r.sample(["a", "b", "c", "d", "e", "f"], w)
+            w = r.randrange(0, 6) if i % 3 else r.randrange(0, 10)
+            keys = r.sample(["a", "b", "c", "d", "e", "f", "g", "h", "i"], w)
             order = list(keys)
             if r.random() < 0.5:
                 # the per-line key order may list a repeated key several times, or be the default order of an
